@@ -127,7 +127,8 @@ func (f *ctFrame) toJSON() ctJSON {
 		j.To = ctBridge.Hex()
 	}
 	if f.err {
-		e := "execution reverted"
+		// what geth's callTracer reports for a failed frame: not only explicit reverts
+		e := ctErrs[(int(f.sender)+len(f.kids))%len(ctErrs)]
 		j.Error = &e
 	}
 	for _, k := range f.kids {
@@ -135,6 +136,9 @@ func (f *ctFrame) toJSON() ctJSON {
 	}
 	return j
 }
+
+var ctErrs = []string{"execution reverted", "out of gas", "invalid opcode: INVALID", "execution reverted", "stack underflow (0 <=> 2)",
+	"write protection", "invalid jump destination", "max call depth exceeded", "insufficient balance for transfer"}
 
 type ctClient struct{ trace []byte }
 
